@@ -24,10 +24,10 @@ from translate import t_c08
 FIELDS = ['x', 'y', 'z']
 DKEYS = ['a', 'b', 'c', 'd']
 LIST_OPS = ['l_setitem', 'l_setslice', 'l_delitem', 'l_delslice', 'l_iadd', 'l_imul', 'l_append', 'l_extend', 'l_insert',
-            'l_pop', 'l_remove', 'l_clear', 'l_sort', 'l_reverse', 'rebind']
+            'l_pop', 'l_remove', 'l_clear', 'l_sort', 'l_reverse', 'rebind', 'sym_setparent', 'sym_setpath']
 DICT_OPS = ['d_setitem', 'd_delitem', 'd_ior', 'd_update', 'd_setdefault', 'd_pop', 'd_popitem', 'd_clear',
-            'd_setattr', 'd_delattr', 'rebind']
-OBJ_OPS = ['o_setattr', 'o_delattr', 'rebind']
+            'd_setattr', 'd_delattr', 'rebind', 'sym_setparent', 'sym_setpath']
+OBJ_OPS = ['o_setattr', 'o_delattr', 'rebind', 'sym_setparent', 'sym_setpath']
 ACCESSOR_OPS = {'l_setitem', 'l_setslice', 'l_delitem', 'l_delslice', 'd_setitem', 'd_delitem', 'd_setattr', 'd_delattr',
                 'o_setattr'}
 # python method name -> model op names, per class (used to match the introspected entry points)
@@ -35,13 +35,15 @@ METHOD_OPS = {
     'List': {'__setitem__': ['l_setitem', 'l_setslice'], '__delitem__': ['l_delitem', 'l_delslice'], '__iadd__': ['l_iadd'],
              '__imul__': ['l_imul'], 'append': ['l_append'], 'extend': ['l_extend'], 'insert': ['l_insert'],
              'pop': ['l_pop'], 'remove': ['l_remove'], 'clear': ['l_clear'], 'sort': ['l_sort'],
-             'reverse': ['l_reverse'], 'rebind': ['rebind'], 'sym_rebind': ['rebind']},
+             'reverse': ['l_reverse'], 'rebind': ['rebind'], 'sym_rebind': ['rebind'],
+             'sym_setparent': ['sym_setparent'], 'sym_setpath': ['sym_setpath']},
     'Dict': {'__setitem__': ['d_setitem'], '__delitem__': ['d_delitem'], '__ior__': ['d_ior'],
              'update': ['d_update'], 'setdefault': ['d_setdefault'], 'pop': ['d_pop'], 'popitem': ['d_popitem'],
              'clear': ['d_clear'], '__setattr__': ['d_setattr'], '__delattr__': ['d_delattr'],
-             'rebind': ['rebind'], 'sym_rebind': ['rebind']},
+             'rebind': ['rebind'], 'sym_rebind': ['rebind'],
+             'sym_setparent': ['sym_setparent'], 'sym_setpath': ['sym_setpath']},
     'Object': {'__setattr__': ['o_setattr'], '__delattr__': ['o_delattr'], 'rebind': ['rebind'],
-               'sym_rebind': ['rebind']},
+               'sym_rebind': ['rebind'], 'sym_setparent': ['sym_setparent'], 'sym_setpath': ['sym_setpath']},
 }
 ERR = [('WritePermissionError', 'perm'), ('IndexError', 'index'), ('KeyError', 'key'), ('ValueError', 'value'),
        ('TypeError', 'type'), ('AttributeError', 'attr')]
@@ -73,12 +75,14 @@ def classes():
       def inference_key(self):
         return 'src'
 
-    _CLS['list'] = [C08A, C08B, C08Inf]
+    _CLS['list'] = [C08A, C08B, C08Inf, pg.Ref]
   return _CLS['list']
 
 
-CLASS_ACCW = [False, True, False]     # default accessor_writable of the classes (C08A, C08B, C08Inf)
+CLASS_ACCW = [False, True, False, False]     # default accessor_writable of the classes (C08A, C08B, C08Inf, pg.Ref)
 INF = 2                                # class index of the inferential element
+REF = 3                                # class index of a pg.Ref to the external value of the case
+_EXT = [None]                          # the external value that the pg.Ref elements of the tree being built refer to
 
 
 # ------------------------------------------------------------------------------------------
@@ -183,6 +187,8 @@ def build(t):
     v = pg.List([build(c) for c in t['items']])
   elif t['k'] == 'dict':
     v = pg.Dict({k: build(c) for k, c in t['items']})
+  elif t.get('c', 0) == REF:
+    v = pg.Ref(_EXT[0])
   else:
     v = classes()[t.get('c', 0)](**{k: build(c) for k, c in t['items']})
   return v
@@ -316,6 +322,10 @@ def do_call(node, call, sink=None):
     setattr(node, key, v)
   elif n in ('d_delattr', 'o_delattr'):
     delattr(node, key)
+  elif n == 'sym_setparent':
+    node.sym_setparent(None)
+  elif n == 'sym_setpath':
+    node.sym_setpath(pg.KeyPath.parse('zzz'))
   elif n == 'rebind':
     node.rebind({pg.KeyPath(list(p)): plain(x, sink) for p, x in call['pairs']})
   else:
@@ -652,7 +662,7 @@ def canonical_call(name, node):
     return {'name': name, 'i': 1, 'v': 42}
   if name == 'l_remove':
     return {'name': name, 'atom': [x for x in node['items'] if not is_node(x)][0]}
-  if name in ('l_clear', 'l_sort', 'l_reverse', 'd_popitem', 'd_clear'):
+  if name in ('l_clear', 'l_sort', 'l_reverse', 'd_popitem', 'd_clear', 'sym_setparent', 'sym_setpath'):
     return {'name': name}
   if name in ('d_setitem', 'd_setattr', 'd_setdefault'):
     return {'name': name, 'key': 'n' if name == 'd_setdefault' else node['items'][0][0], 'v': 42}
@@ -711,7 +721,9 @@ class C08(Prop):
           'outside the unsealed part in every order; 300 histories of 2-4 calls on one accessor-protected receiver '
           '(non-accessor mutators, then accessor writes), flags of all nodes compared after every call; 250 trees '
           'whose lists / dict values / object fields hold inferential elements (a ValueFromParentChain subclass '
-          'that evaluates to a value outside the sealed subtree), sealed / unsealed at any node; '
+          'that evaluates to a value outside the sealed subtree), sealed / unsealed at any node; 300 forests (the tree '
+          'plus an external value that pg.Ref elements of the tree refer to; steps on either tree); the plumbing '
+          'entry points sym_setparent / sym_setpath are part of the entry-point grid; '
           'plus an exhaustive grid: every entry point x {node, child, '
           'grandchild} x own flag x 9 scope stacks x accessor flag, and every mutating method found by '
           'introspection of the classes\' MRO. Non-trivial: the step addresses a node that is protected '
@@ -728,6 +740,11 @@ class C08(Prop):
       '(the receiver is not protected; the property text demands the sealed value to be unchanged): modelled as '
       'the code does it, the oracle demands WritePermissionError and the sealed value unchanged',
       'unbound builtin calls such as list.append(l, x) are not public API of the symbolic types',
+      'sym_setparent / sym_setpath (TopologyAware plumbing, used by every insertion) are not write-protected by the '
+      'code: they change the parent link / path of a node, never contents or flags; modelled as calls that end '
+      'normally and leave the tree as it is, the oracle checks contents and flags (tree integrity is C01)',
+      'a forest is a list of trees without shared nodes; pg.Ref elements are field-less symbolic nodes, the value '
+      'they refer to is another tree of the forest (references into the same tree are rejected by pyglove)',
   ]
   assumptions = ['sym_init_args is the attribute container _sym_attributes of a pg.Object (its sealed flag is observed and set through it)']
 
@@ -744,6 +761,7 @@ class C08(Prop):
     yield from self.partial_seal_batch_cases(rng, 250 if tier == 'quick' else 5000)
     yield from self.flag_history_cases(rng, 300 if tier == 'quick' else 6000)
     yield from self.inferential_cases(rng, 250 if tier == 'quick' else 5000)
+    yield from self.ref_cases(rng, 300 if tier == 'quick' else 6000)
     yield from self.grid_cases()
     yield from self.discovered_cases()
     yield from self.shallow_seal_cases()
@@ -1032,6 +1050,60 @@ class C08(Prop):
         steps += probes[1:2]
       yield {'tree': t, 'steps': steps, 'inferential': True}
 
+  def ref_cases(self, rng, n):
+    """A forest: the tree and an EXTERNAL value that `pg.Ref` elements in its lists, dict values and
+    object fields refer to (a Ref is a symbolic node of its own that evaluates to the external value).
+    seal / unseal / sym_seal / calls on either tree must not reach the other one."""
+    g = Gen(rng)
+    ref = lambda: val_node('obj', [], REF)
+    for _ in range(n):
+      ext = g.tree(rng.randint(0, 2), rng.choice(['dict', 'list', 'obj']))
+      if rng.chance(0.3):
+        g.flags(ext)
+      def holder(kind, depth):
+        def child():
+          k = rng.below(10)
+          if k < 4:
+            return ref()
+          if k < 6 and depth > 0:
+            return holder(rng.choice(['list', 'dict', 'obj']), depth - 1)
+          if k < 7:
+            return val_node('obj', [], INF)
+          return g.atom()
+        if kind == 'list':
+          return val_node('list', [child() for _ in range(rng.randint(1, 4))])
+        if kind == 'dict':
+          return val_node('dict', [[k, child()] for k in DKEYS if rng.chance(0.6)] or [['a', ref()]])
+        return val_node('obj', [[k, child()] for k in FIELDS], rng.below(2))
+      t = val_node('dict', [['src', g.tree(0, 'dict')], ['h', holder(rng.choice(['list', 'list', 'dict', 'obj']), 1)]])
+      if rng.chance(0.3):
+        g.flags(t)
+      tn, en = all_nodes(t), all_nodes(ext)
+      steps = []
+      for i in range(rng.randint(1, 4)):
+        in_ext = rng.chance(0.3)
+        nodes = en if in_ext else tn
+        path, node = rng.choice(nodes)
+        k = rng.below(10)
+        if k < 4:
+          st = {'kind': 'seal', 'recv': path, 'b': rng.chance(0.6)}
+        elif k < 5:
+          st = {'kind': 'sym_seal', 'recv': path, 'b': rng.chance(0.6)}
+        else:
+          if node.get('c') in (REF, INF):
+            call = rng.choice([{'name': 'rebind', 'pairs': [[['x'], 1]]}, {'name': 'o_setattr', 'key': 'x', 'v': 1},
+                               {'name': 'sym_setparent'}])
+          else:
+            call = g.call(node, nodes)
+          st = {'kind': 'call', 'recv': path, 'sealed_scopes': rng.choice([[], [], [None], [True], [False]]),
+                'acc_scopes': rng.choice([[], [True]]), 'call': call}
+        if in_ext:
+          st['in'] = 'ext'
+        steps.append(st)
+        if st['kind'] == 'call':
+          break                      # a call may change the structure the later steps were drawn for
+      yield {'tree': t, 'ext': ext, 'steps': steps, 'forest': True}
+
   def grid_cases(self):
     stacks = [[], [True], [False], [None], [True, None], [None, True], [False, True], [True, False], [None, None, False]]
     for leafk, tmpl, path in grid_templates():
@@ -1108,59 +1180,95 @@ class C08(Prop):
   def model_request(self, case):
     if any(s['kind'] == 'generic' for s in case['steps']):
       return None
-    return {'op': 'run', 'tree': case['tree'], 'steps': case['steps']}
+    req = {'op': 'run', 'tree': case['tree'], 'steps': case['steps']}
+    if 'ext' in case:
+      req['ext'] = case['ext']
+    return req
 
   def impl(self, case):
     import pyglove as pg
     classes()
+    has_ext = 'ext' in case
+    ext = build_full(case['ext']) if has_ext else None
+    _EXT[0] = ext
     root = build_full(case['tree'])
     pre0 = dump(root)
+    def twin(pre, pre_ext, in_ext):
+      """A fresh copy of the forest; returns the tree the step addresses and a function dumping it."""
+      e = build_full(pre_ext) if has_ext else None
+      _EXT[0] = e
+      r = build_full(pre)
+      _EXT[0] = ext
+      return (e, r) if in_ext else (r, e)
+    def tojson(v):
+      return pg.to_json(v, save_ref_value=True)
     outs = []
     for step in case['steps']:
-      pre = dump(root)
+      in_ext = step.get('in') == 'ext'
+      pre_root, pre_ext = dump(root), (dump(ext) if has_ext else None)
+      target = ext if in_ext else root
+      pre = pre_ext if in_ext else pre_root
       o = {}
       if step['kind'] in ('call', 'generic'):
-        jb = pg.to_json(root)
+        jb = tojson(target)
         sink = []
-        o['res'] = run_call(root, step, sink=sink)
-        o['json_same'] = pg.to_json(root) == jb
+        o['res'] = run_call(target, step, sink=sink)
+        o['json_same'] = tojson(target) == jb
         # the flagged (e.g. sealed) values handed to the call: what they look like afterwards
         o['ins'] = [{'v': vj, 'after': dump(v)} for vj, v in sink]
         # would the call change anything if nothing were sealed / if accessors were writable?
-        r1 = build_full(pre)
+        r1, _ = twin(pre_root, pre_ext, in_ext)
         sink1 = []
         o['unsealed'] = {'res': run_call(r1, step, extra_sealed=[False], sink=sink1)}
         o['unsealed']['changes'] = dump(r1) != pre
         o['unsealed']['ins_changed'] = [dump(v) != vj for vj, v in sink1]
-        r2 = build_full(pre)
+        r2, _ = twin(pre_root, pre_ext, in_ext)
         o['acc_true'] = {'res': run_call(r2, step, extra_acc=[True])}
         o['acc_true']['tree'] = dump(r2)
       elif step['kind'] == 'seal':
         try:
-          navigate(root, step['recv']).seal(step['b'])
+          navigate(target, step['recv']).seal(step['b'])
           o['res'] = 'ok'
         except Exception as e:    # pylint: disable=broad-except
           o['res'] = classify(e)
       elif step['kind'] == 'set_acc':
-        navigate(root, step['recv']).set_accessor_writable(step['b'])
+        navigate(target, step['recv']).set_accessor_writable(step['b'])
         o['res'] = 'ok'
       elif step['kind'] == 'sym_seal':
-        navigate(root, step['recv']).sym_seal(step['b'])
+        navigate(target, step['recv']).sym_seal(step['b'])
         o['res'] = 'ok'
       o['tree'] = dump(root)
+      if has_ext:
+        o['ext'] = dump(ext)
       outs.append(o)
-    return {'model': {'steps': [{'res': o['res'], 'tree': o['tree']} for o in outs]}, 'steps': outs, 'pre': pre0}
+    _EXT[0] = None
+    model = {'steps': [dict({'res': o['res'], 'tree': o['tree']}, **({'ext': o['ext']} if has_ext else {})) for o in outs]}
+    return {'model': model, 'steps': outs, 'pre': pre0}
 
   # -- the property itself ------------------------------------------------------------------
   def oracle(self, case, out):
     pre = out['pre']
     if pre != case['tree']:
       return {'signature': 'harness-build-mismatch', 'what': 'built %s from %s' % (pre, case['tree'])}
+    pre_ext = case.get('ext')
     for step, o in zip(case['steps'], out['steps']):
-      f = self.oracle_step(pre, step, o)
+      in_ext = step.get('in') == 'ext'
+      if pre_ext is not None:
+        # the forest: what is done to one tree does not reach the other (a pg.Ref element is a node of
+        # its own; the value it refers to is not part of the tree that holds the Ref)
+        other_pre, other_post = (pre, o['tree']) if in_ext else (pre_ext, o['ext'])
+        if other_pre != other_post:
+          return {'signature': 'changed-other-tree:' + (step['call']['name'] if step['kind'] == 'call' else step['kind']),
+                  'what': '%s at %s of the %s changed the %s: %s -> %s' % (
+                      step.get('call', step['kind']), step['recv'], 'external value' if in_ext else 'tree',
+                      'tree' if in_ext else 'external value (reachable through pg.Ref only)', other_pre, other_post)}
+      o2 = dict(o, tree=o['ext']) if in_ext else o
+      f = self.oracle_step(pre_ext if in_ext else pre, step, o2)
       if f:
         return f
       pre = o['tree']
+      if pre_ext is not None:
+        pre_ext = o['ext']
     return None
 
   def oracle_step(self, pre, step, o):
@@ -1317,6 +1425,8 @@ class C08(Prop):
       h.append('flag-history')
     if case.get('inferential'):
       h.append('inferential-elements')
+    if case.get('forest'):
+      h.append('forest(pg.Ref)')
     for s, o in zip(case['steps'], out['steps']):
       if s['kind'] in ('call', 'generic'):
         name = s['call']['name'] if s['kind'] == 'call' else 'generic'
